@@ -43,6 +43,13 @@ func (s *State) newStrSlice(n string, hint string) (Val, string) {
 	return Val{T: strSliceT, Sl: &SliceV{b, "0", n, n}}, inner
 }
 
+// sums of a measure over the elements [lo, hi) of a string array
+func (s *State) declSums() {
+	for _, f := range []string{"vlen", "nsc"} {
+		s.c.declare("ssum_"+f, fmt.Sprintf("(declare-fun ssum_%s ((Array Int Str) Int Int) Int)", f))
+	}
+}
+
 func (s *State) freshStr(hint string) Val {
 	r := s.freshVal(strT, hint)
 	s.strBasics(r.S)
@@ -74,6 +81,15 @@ func registerStrings(e *Engine) {
 			s.assume(implies(app("clean", a[0].S), app("allClean", inner)))
 			s.c.declare("joinNL", "(declare-fun joinNL ((Array Int Str) Int Int) Str)")
 			s.assume(eq(app("joinNL", inner, "0", n), a[0].S))
+			if s.c.useLines || s.c.cellsMode {
+				k := fmt.Sprintf("k!%d", s.c.fresh)
+				s.c.fresh++
+				el := sel(inner, k)
+				s.assume(fmt.Sprintf("(forall ((%s Int)) (! (=> (and (<= 0 %s) (< %s %s)) %s) :pattern (%s)))", k, k, k, n,
+					and(app("noNL", el), app("<=", "0", app("vlen", el)), app("<=", "0", app("nsc", el)), app("<=", app("nsc", el), app("vlen", el)),
+						implies(app("wf", a[0].S), and(app("wf", el), app("<=", app("vlen", el), app("mxl", a[0].S)))),
+						implies(app("clean", a[0].S), app("clean", el))), el))
+			}
 			return []Val{v}
 		}
 		n := s.c.freshConst("spl", sInt)
@@ -102,7 +118,7 @@ func registerStrings(e *Engine) {
 		s.assume(implies(eq(xs.Sl.Len, "0"), eq(r.S, "emp")))
 		sep, ok := constString(callArg(site, 1))
 		if ok {
-			s.used("strings.Join(xs, sep): nl(result) == (len-1)*nl(sep) for newline-free xs; wf/clean preserved")
+			s.used("strings.Join(xs, sep): nl(result) == (len-1)*nl(sep) for newline-free xs; wf/clean preserved; for sep \"\\n\" the lines of the result are the (newline-free) elements")
 			k := strings.Count(sep, "\n")
 			gaps := ite(app(">=", xs.Sl.Len, "1"), app("-", xs.Sl.Len, "1"), "0")
 			s.assume(implies(app("allNoNL", inner), eq(app("nl", r.S), app("*", fmt.Sprint(k), gaps))))
@@ -116,6 +132,43 @@ func registerStrings(e *Engine) {
 			if sep == "\n" {
 				s.c.declare("joinNL", "(declare-fun joinNL ((Array Int Str) Int Int) Str)")
 				s.assume(eq(r.S, app("joinNL", inner, xs.Sl.Off, app("+", xs.Sl.Off, xs.Sl.Len))))
+			}
+			if s.c.useLines || s.c.cellsMode {
+				// element-wise version with witnesses: a property of all elements carries over to the result, i.e.
+				// the result has it or some element (the witness) lacks it
+				lo, hi := xs.Sl.Off, app("+", xs.Sl.Off, xs.Sl.Len)
+				bad := func(p string, neg bool) string {
+					w := s.c.freshConst("jw", sInt) // relative index of the witness
+					el := sel(inner, ixT(xs.Sl.Off, w))
+					s.strBasics(el)
+					body := app(p, el)
+					if !neg {
+						body = not(body)
+					}
+					return and(app("<=", "0", w), app("<", w, xs.Sl.Len), body)
+				}
+				badWf, badNL := bad("wf", false), bad("noNL", false)
+				if okc {
+					s.assume(or(app("wf", r.S), badWf))
+				}
+				if refClean(sep) {
+					s.assume(or(app("clean", r.S), bad("clean", false)))
+				}
+				s.assume(or(badNL, eq(app("nl", r.S), app("*", fmt.Sprint(k), gaps))))
+				if sep == "\n" {
+					s.declSums()
+					km := s.c.freshConst("jmax", sInt)
+					elm := sel(inner, ixT(xs.Sl.Off, km))
+					s.strBasics(elm)
+					s.assume(or(badWf, badNL, and(eq(xs.Sl.Len, "0"), eq(app("mxl", r.S), "0")),
+						and(app("<=", "0", km), app("<", km, xs.Sl.Len), eq(app("mxl", r.S), app("vlen", elm)))))
+					first, last := sel(inner, ixT(xs.Sl.Off, "0")), sel(inner, ixT(xs.Sl.Off, app("-", xs.Sl.Len, "1")))
+					s.strBasics(first)
+					s.strBasics(last)
+					s.assume(or(badWf, badNL, eq(xs.Sl.Len, "0"), and(eq(app("fstl", r.S), app("vlen", first)), eq(app("lstl", r.S), app("vlen", last)))))
+					s.assume(or(badWf, and(eq(app("vlen", r.S), app("ssum_vlen", inner, lo, hi)), eq(app("nsc", r.S), app("ssum_nsc", inner, lo, hi)))))
+					s.assume(and(eq(app("ssum_vlen", inner, lo, lo), "0"), eq(app("ssum_nsc", inner, lo, lo), "0")))
+				}
 			}
 		}
 		return []Val{r}
@@ -132,6 +185,9 @@ func registerStrings(e *Engine) {
 			s.assume(eq(app("blen", r.S), app("*", fmt.Sprint(len(lit)), n)))
 			if okc {
 				s.assume(eq(app("vlen", r.S), app("*", fmt.Sprint(vis), n)))
+				if _, _, ns := refLines(lit); true {
+					s.assume(eq(app("nsc", r.S), app("*", fmt.Sprint(ns), n)))
+				}
 			}
 		} else {
 			s.assume(implies(eq(n, "1"), eq(r.S, a[0].S)))
